@@ -401,6 +401,47 @@ fn run_deep_states(alg: Alg, w: &mut Worker, seed: Vec<u8>) {
     }
 }
 
+/// In a build with reduced limits: well-formed key bytes whose parameter list exceeds the limit of
+/// exactly one level (next larger height, next smaller W, one level too many).  Nothing can be
+/// signed with them in this build, so the callback must stay untouched.
+fn run_out_of_limit_states(alg: Alg, w: &mut Worker) {
+    let (nlev, hs, ws) = match crate::common::build_limits() {
+        Some(x) => x,
+        None => return,
+    };
+    let base: Vec<Level> = (0..nlev.min(8)).map(|i| Level { h: if hs[i] >= 5 { 5 } else { 2 }, w: ws[i].max(4) }).collect();
+    let mut lists: Vec<(String, Vec<Level>)> = Vec::new();
+    for i in 0..base.len() {
+        if let Some(hb) = [5u32, 10].iter().copied().find(|h| *h > hs[i]) {
+            let mut l = base.clone();
+            l[i].h = hb;
+            lists.push((format!("out-of-limit:height:level{i}"), l));
+        }
+        if let Some(wb) = [4u32, 2, 1].iter().copied().find(|x| *x < ws[i]) {
+            let mut l = base.clone();
+            l[i].w = wb;
+            lists.push((format!("out-of-limit:winternitz:level{i}"), l));
+        }
+    }
+    if nlev < 8 {
+        let mut l = base.clone();
+        l.push(Level { h: 2, w: 8 });
+        lists.push(("out-of-limit:levels".into(), l));
+    }
+    for (state, lv) in lists {
+        if crate::common::in_build_limits(&lv) {
+            continue;
+        }
+        let c = Case { alg, levels: lv, seed: vec![0x3cu8; alg.n()] };
+        let blob = hss::make_blob(1, &c.levels, &c.seed);
+        for cb in [Cb::Accept, Cb::Refuse] {
+            one_call(w, &c, &blob, &state, false, cb, AuxKind::None, &[], SignEntry::Bytes, &[]);
+        }
+        one_call(w, &c, &blob, &state, false, Cb::Accept, AuxKind::None, &[], SignEntry::TrySign, &[]);
+        w.report.count("out_of_limit_states", 1);
+    }
+}
+
 pub fn run(ctx: &Ctx) -> Report {
     let mut rng = ctx.rng("c04");
     let mut cases = Vec::new();
@@ -419,9 +460,25 @@ pub fn run(ctx: &Ctx) -> Report {
         let cb = shared::sign_cost(b.alg, &b.levels) * hss::total_leaves(&b.levels) as f64;
         cb.partial_cmp(&ca).unwrap()
     });
+    if let Some((nlev, hs, ws)) = crate::common::build_limits() {
+        // a build with reduced limits (stage `constrained`): the lists it supports, the list that
+        // uses every limit to the full, and - as states in which nothing can be signed - key bytes
+        // that exceed one level's limit while staying inside the build's overall maxima
+        cases.retain(|c| crate::common::in_build_limits(&c.levels));
+        for alg in [Alg::Sha256_256, Alg::Sha256_128, Alg::Shake256_192] {
+            let full: Vec<Level> = (0..nlev.min(8)).map(|i| Level { h: if hs[i] >= 10 && !alg.is_shake() { 10 } else if hs[i] >= 5 { 5 } else { 2 }, w: ws[i].max(if hs[i] >= 10 { 4 } else { 1 }) }).collect();
+            if crate::common::in_build_limits(&full) && shared::sign_cost(alg, &full) * (hss::total_leaves(&full) as f64) < 2.0e9 {
+                cases.push(Case { alg, levels: full.clone(), seed: rng.bytes(alg.n()) });
+            }
+        }
+    }
     let deep: Vec<(Alg, Vec<u8>)> = if ctx.quick() { vec![Alg::Sha256_128, Alg::Sha256_192] } else { model::ALL_ALGS.to_vec() }.into_iter().map(|a| (a, rng.bytes(a.n()))).collect();
     let mut rep = par_run(ctx, cases, |c, w| run_case(c, w));
-    rep.merge(par_run(ctx, deep, |(a, sd), w| run_deep_states(a, w, sd)));
+    if crate::common::build_limits().is_none() {
+        rep.merge(par_run(ctx, deep, |(a, sd), w| run_deep_states(a, w, sd)));
+    } else {
+        rep.merge(par_run(ctx, vec![Alg::Sha256_256, Alg::Sha256_192, Alg::Shake256_128], |a, w| run_out_of_limit_states(a, w)));
+    }
     rep.exhaustive = Some(true);
     rep.rule = "enumeration, not sampling: every private-key state of the complete lifetime of [H2], [H2,H2], [H2,H2,H2], [H5] (thorough: also [H2x4], [H5,H2]) under all 6 hashes \
                 x callback outcome {accept, refuse} x aux {none, fresh, valid, corrupted MAC} x entry {sign, try_sign, try_sign_with_aux}, plus every failing precondition \
